@@ -387,6 +387,44 @@ func uniq2(l [][2]string) [][2]string {
 	return out
 }
 
+// pkgObjects: package-level variables that hold an OBJECT (their initialiser is a call, a composite literal or the address
+// of one): state shared by every goroutine that uses the package. Recorded as (package, variable, how it is made); the
+// discipline allows only makers whose results are immutable or documented as safe for concurrent use.
+func collectPkgObjects(pkgName string, p *pkgInfo) [][3]string {
+	var out [][3]string
+	for _, f := range p.files {
+		for _, d := range f.Decls {
+			gd, ok := d.(*ast.GenDecl)
+			if !ok || gd.Tok != token.VAR {
+				continue
+			}
+			for _, sp := range gd.Specs {
+				vs := sp.(*ast.ValueSpec)
+				for i, n := range vs.Names {
+					if i >= len(vs.Values) || n.Name == "_" {
+						continue
+					}
+					e := vs.Values[i]
+					if u, ok := e.(*ast.UnaryExpr); ok && u.Op == token.AND {
+						e = u.X
+					}
+					kind := ""
+					switch v := e.(type) {
+					case *ast.CallExpr:
+						kind = "call " + strings.Join(strings.Fields(p.src(v.Fun)), "")
+					case *ast.CompositeLit:
+						kind = "lit " + strings.Join(strings.Fields(p.src(v.Type)), "")
+					}
+					if kind != "" {
+						out = append(out, [3]string{pkgName, n.Name, kind})
+					}
+				}
+			}
+		}
+	}
+	return out
+}
+
 func genSharedAccess(p, db *pkgInfo) string {
 	t := &sharedTab{}
 	collectShared("gowarc", p, t)
@@ -439,6 +477,9 @@ func genSharedAccess(p, db *pkgInfo) string {
 	fmt.Fprintf(&sb, "/-- (field, method) : non-atomic assignments to fields of PatternNameGenerator in its methods -/\ndef generatorFieldWrites : List (String × String) := %s\n\n", leanPairs(uniq2(t.genWrites)))
 	fmt.Fprintf(&sb, "/-- (field, method) : assignments to fields of WarcFileWriter in its methods (the constructor builds a literal) -/\ndef writerStructWrites : List (String × String) := %s\n\n", leanPairs(uniq2(t.wfwWrites)))
 	fmt.Fprintf(&sb, "/-- (function, pool, niled|kept) : sync.Pool Put calls and whether the reference is dropped afterwards -/\ndef poolPuts : List (String × String × String) := %s\n\n", leanTriples(t.poolPuts))
+	objs := append(collectPkgObjects("gowarc", p), collectPkgObjects("diskbuffer", db)...)
+	sb.WriteString("/-- (package, variable, maker) : package-level variables holding an object -/\n")
+	fmt.Fprintf(&sb, "def pkgObjects : List (String × String × String) := %s\n\n", leanTriples(objs))
 	sb.WriteString("end Gowarc.Gen\n")
 	return sb.String()
 }
